@@ -25,6 +25,8 @@ structure Inv (s : St) : Prop where
   cons : ∀ f, f < s.k → s.remaining f = s.toSend f + inflight s f
   vis : ∀ w f, s.buf w f > 0 → w / s.c < s.visible (w % s.c)
   acc : ∀ j, j < s.c → s.accepted j ≤ s.visible j ∧ s.visible j ≤ cnt s.n s.c j
+  visU : ∀ w f, s.bufU w f > 0 → w / s.c < s.visible (w % s.c)
+  endsU : ∀ f, f < s.k → s.endSent f = true → s.toSendU f = 0
   done1 : ∀ f, f < s.k → s.doneSent f = true → s.remaining f = 0 ∧ s.endRecv f = true
   done2 : ∀ f, f < s.k → s.remaining f = 0 → s.endRecv f = true → s.doneSent f = true
   endo : ∀ f, f < s.k → s.endRecv f = true → s.endSent f = true
@@ -35,7 +37,7 @@ structure Inv (s : St) : Prop where
   npos : 0 < s.n
   cpos : 0 < s.c
 
-theorem inv_init (k n c : Nat) (chunks : Nat → Nat) (hn : 0 < n) (hc : 0 < c) : Inv (init k n c chunks) := by
+theorem inv_init (k n c : Nat) (chunks extra : Nat → Nat) (hn : 0 < n) (hc : 0 < c) : Inv (init k n c chunks extra) := by
   constructor
   · intro f _
     simp only [init, inflight]
@@ -47,6 +49,8 @@ theorem inv_init (k n c : Nat) (chunks : Nat → Nat) (hn : 0 < n) (hc : 0 < c) 
     by_cases hj : j = 0
     · subst hj; simp only [if_true]; exact ⟨Nat.le_refl _, cnt_zero_pos hc⟩
     · simp [hj]
+  · intro w f h; simp [init] at h
+  · intro f _ h; simp [init] at h
   · intro f _ h; simp [init] at h
   · intro f _ _ h; simp [init] at h
   · intro f _ h; simp [init] at h
@@ -60,7 +64,7 @@ theorem inv_init (k n c : Nat) (chunks : Nat → Nat) (hn : 0 < n) (hc : 0 < c) 
 /-- `fin` only ever sets `doneSent f`, and only when the file is complete -/
 theorem fin_fields (s : St) (f : Nat) :
     (fin s f).c = s.c ∧ (fin s f).k = s.k ∧ (fin s f).n = s.n ∧ (fin s f).toSend = s.toSend ∧ (fin s f).remaining = s.remaining ∧
-    (fin s f).buf = s.buf ∧ (fin s f).visible = s.visible ∧ (fin s f).accepted = s.accepted ∧
+    (fin s f).buf = s.buf ∧ (fin s f).toSendU = s.toSendU ∧ (fin s f).bufU = s.bufU ∧ (fin s f).visible = s.visible ∧ (fin s f).accepted = s.accepted ∧
     (fin s f).endSent = s.endSent ∧ (fin s f).endRecv = s.endRecv ∧ (fin s f).doneRecv = s.doneRecv ∧
     (fin s f).endAllSent = s.endAllSent ∧ (fin s f).endAllRecv = s.endAllRecv := by
   unfold fin; split <;> simp
@@ -83,6 +87,8 @@ theorem fin_inv {s : St} {f : Nat} (hf : f < s.k)
     (cons : ∀ f, f < s.k → s.remaining f = s.toSend f + inflight s f)
     (vis : ∀ w f, s.buf w f > 0 → w / s.c < s.visible (w % s.c))
     (acc : ∀ j, j < s.c → s.accepted j ≤ s.visible j ∧ s.visible j ≤ cnt s.n s.c j)
+    (visU : ∀ w f, s.bufU w f > 0 → w / s.c < s.visible (w % s.c))
+    (endsU : ∀ f, f < s.k → s.endSent f = true → s.toSendU f = 0)
     (done1 : ∀ g, g < s.k → s.doneSent g = true → s.remaining g = 0 ∧ s.endRecv g = true)
     (done2 : ∀ g, g < s.k → g ≠ f → s.remaining g = 0 → s.endRecv g = true → s.doneSent g = true)
     (endo : ∀ f, f < s.k → s.endRecv f = true → s.endSent f = true)
@@ -91,7 +97,7 @@ theorem fin_inv {s : St} {f : Nat} (hf : f < s.k)
     (eas : s.endAllSent = true → allB s.k s.doneRecv)
     (ear : s.endAllRecv = true → s.endAllSent = true)
     (npos : 0 < s.n) (cpos : 0 < s.c) : Inv (fin s f) := by
-  obtain ⟨h0, h1, h2, h3, h4, h5, h6, h7, h8, h9, h10, h11, h12⟩ := fin_fields s f
+  obtain ⟨h0, h1, h2, h3, h4, h5, hU1, hU2, h6, h7, h8, h9, h10, h11, h12⟩ := fin_fields s f
   constructor
   · intro g hg
     rw [h1] at hg
@@ -99,6 +105,8 @@ theorem fin_inv {s : St} {f : Nat} (hf : f < s.k)
     exact cons g hg
   · intro w g hb; rw [h5] at hb; rw [h6, h0]; exact vis w g hb
   · intro j hj; rw [h0] at hj; rw [h6, h7, h2, h0]; exact acc j hj
+  · intro w g hb; rw [hU2] at hb; rw [h6, h0]; exact visU w g hb
+  · intro g hg he; rw [h1] at hg; rw [h8] at he; rw [hU1]; exact endsU g hg he
   · intro g hg hd
     rw [h1] at hg
     rw [fin_doneSent] at hd
@@ -127,7 +135,7 @@ theorem fin_inv {s : St} {f : Nat} (hf : f < s.k)
   · rw [h0]; exact cpos
 
 theorem step_inv {s s' : St} {a : Step} (hi : Inv s) (hs : step s a = some s') : Inv s' := by
-  obtain ⟨cons, vis, acc, done1, done2, endo, ends, dr, eas, ear, npos, cpos⟩ := hi
+  obtain ⟨cons, vis, acc, visU, endsU, done1, done2, endo, ends, dr, eas, ear, npos, cpos⟩ := hi
   cases a with
   | dispatch f w =>
     simp only [step] at hs
@@ -174,6 +182,13 @@ theorem step_inv {s s' : St} {a : Step} (hi : Inv s) (hs : step s a = some s') :
           have := pos_lt_cnt (n := s.n) cpos hw
           omega
         · rw [upd_other _ _ _ _ hm]; exact acc j hj
+      · intro w' g hb
+        simp only at hb ⊢
+        have hv := visU w' g hb
+        by_cases hm : w' % s.c = w % s.c
+        · rw [hm, upd_same]; rw [hm] at hv; omega
+        · rw [upd_other _ _ _ _ hm]; exact hv
+      · exact endsU
       · intro g hg hd
         have := done1 g hg hd
         simp only
@@ -197,13 +212,80 @@ theorem step_inv {s s' : St} {a : Step} (hi : Inv s) (hs : step s a = some s') :
       · exact npos
       · exact cpos
     · cases hs
+  | dispatchU f w =>
+    simp only [step] at hs
+    split at hs
+    · rename_i hc
+      obtain ⟨hf, hw1, hw, hts⟩ := hc
+      cases hs
+      refine ⟨cons, ?_, ?_, ?_, ?_, done1, done2, endo, ends, dr, eas, ear, npos, cpos⟩
+      · intro w' g hb
+        simp only at hb ⊢
+        have hv := vis w' g hb
+        by_cases hm : w' % s.c = w % s.c
+        · rw [hm, upd_same]; rw [hm] at hv; omega
+        · rw [upd_other _ _ _ _ hm]; exact hv
+      · intro j hj
+        simp only
+        by_cases hm : j = w % s.c
+        · subst hm
+          rw [upd_same]
+          have := acc _ hj
+          have := pos_lt_cnt (n := s.n) cpos hw
+          omega
+        · rw [upd_other _ _ _ _ hm]; exact acc j hj
+      · intro w' g hb
+        simp only at hb ⊢
+        by_cases hc : w' = w ∧ g = f
+        · rw [hc.1, upd_same]; omega
+        · have := bufSet_other s.bufU w f (s.bufU w f + 1) w' g (by
+            by_cases h1 : w' = w
+            · exact Or.inr (fun h2 => hc ⟨h1, h2⟩)
+            · exact Or.inl h1)
+          simp only [bufSet] at this
+          rw [this] at hb
+          have hv := visU w' g hb
+          by_cases hm : w' % s.c = w % s.c
+          · rw [hm, upd_same]; rw [hm] at hv; omega
+          · rw [upd_other _ _ _ _ hm]; exact hv
+      · intro g hg he
+        have := endsU g hg he
+        simp only
+        by_cases hgf : g = f
+        · subst hgf; omega
+        · rw [upd_other _ _ _ _ hgf]; exact this
+    · cases hs
+  | readFrameU w f =>
+    simp only [step] at hs
+    split at hs
+    · rename_i hc
+      obtain ⟨hf, hw, hb⟩ := hc
+      cases hs
+      refine ⟨cons, vis, acc, ?_, endsU, done1, done2, endo, ends, dr, eas, ear, npos, cpos⟩
+      intro w' g hb'
+      simp only at hb' ⊢
+      by_cases hc : w' = w ∧ g = f
+      · rw [hc.1]; exact visU w f hb
+      · have := bufSet_other s.bufU w f (s.bufU w f - 1) w' g (by
+          by_cases h1 : w' = w
+          · exact Or.inr (fun h2 => hc ⟨h1, h2⟩)
+          · exact Or.inl h1)
+        simp only [bufSet] at this
+        rw [this] at hb'
+        exact visU w' g hb'
+    · cases hs
   | sendEnd f =>
     simp only [step] at hs
     split at hs
     · rename_i hc
-      obtain ⟨hf, hts, hes⟩ := hc
+      obtain ⟨hf, hts, htsU, hes⟩ := hc
       cases hs
-      refine ⟨cons, vis, acc, done1, done2, ?_, ?_, dr, eas, ear, npos, cpos⟩
+      refine ⟨cons, vis, acc, visU, ?_, done1, done2, ?_, ?_, dr, eas, ear, npos, cpos⟩
+      · intro g hg he
+        simp only at he
+        by_cases hgf : g = f
+        · subst hgf; exact htsU
+        · rw [upd_other _ _ _ _ hgf] at he; exact endsU g hg he
       · intro g hg he
         simp only
         by_cases hgf : g = f
@@ -220,7 +302,7 @@ theorem step_inv {s s' : St} {a : Step} (hi : Inv s) (hs : step s a = some s') :
     split at hs
     · rename_i hc
       cases hs
-      refine ⟨cons, vis, ?_, done1, done2, endo, ends, dr, eas, ear, npos, cpos⟩
+      refine ⟨cons, vis, ?_, visU, endsU, done1, done2, endo, ends, dr, eas, ear, npos, cpos⟩
       intro j' hj'
       simp only
       by_cases hm : j' = j
@@ -276,6 +358,8 @@ theorem step_inv {s s' : St} {a : Step} (hi : Inv s) (hs : step s a = some s') :
           rw [this] at hb'
           exact vis w' g hb'
       · exact acc
+      · exact visU
+      · exact endsU
       · intro g hg hd
         have := done1 g hg hd
         simp only
@@ -306,6 +390,8 @@ theorem step_inv {s s' : St} {a : Step} (hi : Inv s) (hs : step s a = some s') :
       · exact cons
       · exact vis
       · exact acc
+      · exact visU
+      · exact endsU
       · intro g hg hd
         have := done1 g hg hd
         simp only
@@ -334,7 +420,7 @@ theorem step_inv {s s' : St} {a : Step} (hi : Inv s) (hs : step s a = some s') :
     · rename_i hc
       obtain ⟨hf, hds, hdr⟩ := hc
       cases hs
-      refine ⟨cons, vis, acc, done1, done2, endo, ends, ?_, ?_, ear, npos, cpos⟩
+      refine ⟨cons, vis, acc, visU, endsU, done1, done2, endo, ends, ?_, ?_, ear, npos, cpos⟩
       · intro g hg hd
         simp only at hd
         by_cases hgf : g = f
@@ -353,7 +439,7 @@ theorem step_inv {s s' : St} {a : Step} (hi : Inv s) (hs : step s a = some s') :
     split at hs
     · rename_i hc
       cases hs
-      refine ⟨cons, ?_, ?_, done1, done2, endo, ends, dr, fun _ => hc.1, ?_, npos, cpos⟩
+      refine ⟨cons, ?_, ?_, ?_, endsU, done1, done2, endo, ends, dr, fun _ => hc.1, ?_, npos, cpos⟩
       · intro w f hb
         simp only at hb ⊢
         have := vis w f hb
@@ -363,6 +449,11 @@ theorem step_inv {s s' : St} {a : Step} (hi : Inv s) (hs : step s a = some s') :
         simp only
         have := acc j hj
         exact ⟨by omega, Nat.le_refl _⟩
+      · intro w f hb
+        simp only at hb ⊢
+        have := visU w f hb
+        have := (acc _ (Nat.mod_lt w cpos)).2
+        omega
       · intro he; simp only at he ⊢
     · cases hs
   | recvEndAll =>
@@ -370,12 +461,12 @@ theorem step_inv {s s' : St} {a : Step} (hi : Inv s) (hs : step s a = some s') :
     split at hs
     · rename_i hc
       cases hs
-      exact ⟨cons, vis, acc, done1, done2, endo, ends, dr, eas, fun _ => hc.1, npos, cpos⟩
+      exact ⟨cons, vis, acc, visU, endsU, done1, done2, endo, ends, dr, eas, fun _ => hc.1, npos, cpos⟩
     · cases hs
 
-theorem reachable_inv {k n c : Nat} {chunks : Nat → Nat} (hn : 0 < n) (hc : 0 < c) {s : St} (h : Reachable k n c chunks s) : Inv s := by
+theorem reachable_inv {k n c : Nat} {chunks extra : Nat → Nat} (hn : 0 < n) (hc : 0 < c) {s : St} (h : Reachable k n c chunks extra s) : Inv s := by
   induction h with
-  | init => exact inv_init k n c chunks hn hc
+  | init => exact inv_init k n c chunks extra hn hc
   | step a _ hs ih => exact step_inv ih hs
 
 /-! ### progress: no reachable non-final state is stuck -/
@@ -389,9 +480,17 @@ theorem progress {s : St} (hi : Inv s) (hnf : s.endAllRecv = false) : ∃ a s', 
     apply Decidable.byContradiction
     intro hc
     exact h1 ⟨f, hf, by omega⟩
+  by_cases h1u : ∃ f, f < s.k ∧ s.toSendU f > 0
+  · obtain ⟨f, hf, ht⟩ := h1u
+    exact ⟨.dispatchU f 1, _, by simp only [step]; rw [if_pos ⟨hf, Nat.le_refl 1, hi.npos, ht⟩]⟩
+  have htsU : ∀ f, f < s.k → s.toSendU f = 0 := by
+    intro f hf
+    apply Decidable.byContradiction
+    intro hc
+    exact h1u ⟨f, hf, by omega⟩
   by_cases h2 : ∃ f, f < s.k ∧ s.endSent f = false
   · obtain ⟨f, hf, he⟩ := h2
-    exact ⟨.sendEnd f, _, by simp only [step]; rw [if_pos ⟨hf, hts f hf, he⟩]⟩
+    exact ⟨.sendEnd f, _, by simp only [step]; rw [if_pos ⟨hf, hts f hf, htsU f hf, he⟩]⟩
   have hes : ∀ f, f < s.k → s.endSent f = true := by
     intro f hf
     cases hv : s.endSent f with
@@ -440,12 +539,15 @@ def term (s : St) (f : Nat) : Nat := 2 * s.toSend f + b2n (!s.endSent f) + b2n (
 /-- streams of connection `j` the receiver has not taken yet -/
 def open_ (s : St) (j : Nat) : Nat := cnt s.n s.c j - s.accepted j
 
+def termU (s : St) (f : Nat) : Nat := 2 * s.toSendU f
+
 theorem measure_eq (s : St) :
-    measure s = sumN s.k (term s) + sumN s.k (inflight s) + sumN s.c (open_ s) + b2n (!s.endAllSent) + b2n (!s.endAllRecv) := rfl
+    measure s = sumN s.k (term s) + sumN s.k (inflight s) + sumN s.k (termU s) + sumN s.k (inflightU s) + sumN s.c (open_ s) +
+      b2n (!s.endAllSent) + b2n (!s.endAllRecv) := rfl
 
 theorem measure_fin (s : St) (f : Nat) : measure (fin s f) = measure s := by
-  obtain ⟨h0, h1, h2, h3, h4, h5, h6, h7, h8, h9, h10, h11, h12⟩ := fin_fields s f
-  simp only [measure, inflight, h0, h1, h2, h3, h5, h7, h8, h9, h10, h11, h12]
+  obtain ⟨h0, h1, h2, h3, h4, h5, hU1, hU2, h6, h7, h8, h9, h10, h11, h12⟩ := fin_fields s f
+  simp only [measure, inflight, inflightU, h0, h1, h2, h3, h5, hU1, hU2, h7, h8, h9, h10, h11, h12]
 
 theorem step_measure {s s' : St} {a : Step} (hi : Inv s) (hs : step s a = some s') : measure s' < measure s := by
   cases a with
@@ -479,13 +581,89 @@ theorem step_measure {s s' : St} {a : Step} (hi : Inv s) (hs : step s a = some s
         simp only [term, upd_same]; omega
       have hC : sumN s.c (open_ { s with toSend := upd s.toSend f (s.toSend f - 1), buf := upd s.buf w (upd (s.buf w) f (s.buf w f + 1)), visible := upd s.visible (w % s.c) (max (s.visible (w % s.c)) (w / s.c + 1)) })
           = sumN s.c (open_ s) := rfl
+      have hD : sumN s.k (termU { s with toSend := upd s.toSend f (s.toSend f - 1), buf := upd s.buf w (upd (s.buf w) f (s.buf w f + 1)), visible := upd s.visible (w % s.c) (max (s.visible (w % s.c)) (w / s.c + 1)) }) = sumN s.k (termU s) := rfl
+      have hE : sumN s.k (inflightU { s with toSend := upd s.toSend f (s.toSend f - 1), buf := upd s.buf w (upd (s.buf w) f (s.buf w f + 1)), visible := upd s.visible (w % s.c) (max (s.visible (w % s.c)) (w / s.c + 1)) }) = sumN s.k (inflightU s) := rfl
+      omega
+    · cases hs
+  | dispatchU f w =>
+    simp only [step] at hs
+    split at hs
+    · rename_i hc
+      obtain ⟨hf, hw1, hw, hts⟩ := hc
+      cases hs
+      have hwn : w < s.n + 1 := by omega
+      simp only [measure_eq]
+      have hA : sumN s.k (term { s with toSendU := upd s.toSendU f (s.toSendU f - 1), bufU := upd s.bufU w (upd (s.bufU w) f (s.bufU w f + 1)), visible := upd s.visible (w % s.c) (max (s.visible (w % s.c)) (w / s.c + 1)) })
+          = sumN s.k (term s) := rfl
+      have hB : sumN s.k (inflight { s with toSendU := upd s.toSendU f (s.toSendU f - 1), bufU := upd s.bufU w (upd (s.bufU w) f (s.bufU w f + 1)), visible := upd s.visible (w % s.c) (max (s.visible (w % s.c)) (w / s.c + 1)) })
+          = sumN s.k (inflight s) := rfl
+      have hC : sumN s.c (open_ { s with toSendU := upd s.toSendU f (s.toSendU f - 1), bufU := upd s.bufU w (upd (s.bufU w) f (s.bufU w f + 1)), visible := upd s.visible (w % s.c) (max (s.visible (w % s.c)) (w / s.c + 1)) })
+          = sumN s.c (open_ s) := rfl
+      have hD := sum_change (k := s.k) (g := termU s)
+        (g' := termU { s with toSendU := upd s.toSendU f (s.toSendU f - 1), bufU := upd s.bufU w (upd (s.bufU w) f (s.bufU w f + 1)), visible := upd s.visible (w % s.c) (max (s.visible (w % s.c)) (w / s.c + 1)) })
+        hf (by intro i hi; simp only [termU]; rw [upd_other _ _ _ _ hi])
+      have hDf : termU { s with toSendU := upd s.toSendU f (s.toSendU f - 1), bufU := upd s.bufU w (upd (s.bufU w) f (s.bufU w f + 1)), visible := upd s.visible (w % s.c) (max (s.visible (w % s.c)) (w / s.c + 1)) } f + 2
+          = termU s f := by
+        simp only [termU, upd_same]; omega
+      have hE := sum_change (k := s.k) (g := inflightU s)
+        (g' := inflightU { s with toSendU := upd s.toSendU f (s.toSendU f - 1), bufU := upd s.bufU w (upd (s.bufU w) f (s.bufU w f + 1)), visible := upd s.visible (w % s.c) (max (s.visible (w % s.c)) (w / s.c + 1)) })
+        hf (by
+          intro i hi
+          simp only [inflightU]
+          have := inflight_bufSet (s.n + 1) s.bufU w f (s.bufU w f + 1) i hwn
+          simp only [hi, if_false, Nat.add_zero, bufSet] at this
+          exact this)
+      have hEf : inflightU { s with toSendU := upd s.toSendU f (s.toSendU f - 1), bufU := upd s.bufU w (upd (s.bufU w) f (s.bufU w f + 1)), visible := upd s.visible (w % s.c) (max (s.visible (w % s.c)) (w / s.c + 1)) } f
+          = inflightU s f + 1 := by
+        simp only [inflightU]
+        have := inflight_bufSet (s.n + 1) s.bufU w f (s.bufU w f + 1) f hwn
+        simp only [if_true, bufSet] at this
+        omega
+      omega
+    · cases hs
+  | readFrameU w f =>
+    simp only [step] at hs
+    split at hs
+    · rename_i hc
+      obtain ⟨hf, hw, hb⟩ := hc
+      cases hs
+      have hmc : w % s.c < s.c := Nat.mod_lt w hi.cpos
+      have hwn : w < s.n + 1 := by
+        apply Decidable.byContradiction
+        intro hge
+        have h1 := (hi.acc _ hmc).2
+        have h2 := hi.visU w f hb
+        unfold cnt at h1
+        have h3 : w / s.c < (s.n + s.c - w % s.c) / s.c := by omega
+        have h4 := (Nat.lt_div_iff_mul_lt hi.cpos).mp h3
+        have h5 := Nat.div_add_mod w s.c
+        have h6 : (w / s.c) * s.c = s.c * (w / s.c) := Nat.mul_comm _ _
+        omega
+      simp only [measure_eq]
+      have hA : sumN s.k (term { s with bufU := upd s.bufU w (upd (s.bufU w) f (s.bufU w f - 1)) }) = sumN s.k (term s) := rfl
+      have hB : sumN s.k (inflight { s with bufU := upd s.bufU w (upd (s.bufU w) f (s.bufU w f - 1)) }) = sumN s.k (inflight s) := rfl
+      have hC : sumN s.c (open_ { s with bufU := upd s.bufU w (upd (s.bufU w) f (s.bufU w f - 1)) }) = sumN s.c (open_ s) := rfl
+      have hD : sumN s.k (termU { s with bufU := upd s.bufU w (upd (s.bufU w) f (s.bufU w f - 1)) }) = sumN s.k (termU s) := rfl
+      have hE := sum_change (k := s.k) (g := inflightU s)
+        (g' := inflightU { s with bufU := upd s.bufU w (upd (s.bufU w) f (s.bufU w f - 1)) })
+        hf (by
+          intro i hi'
+          simp only [inflightU]
+          have := inflight_bufSet (s.n + 1) s.bufU w f (s.bufU w f - 1) i hwn
+          simp only [hi', if_false, Nat.add_zero, bufSet] at this
+          exact this)
+      have hEf : inflightU { s with bufU := upd s.bufU w (upd (s.bufU w) f (s.bufU w f - 1)) } f + 1 = inflightU s f := by
+        simp only [inflightU]
+        have := inflight_bufSet (s.n + 1) s.bufU w f (s.bufU w f - 1) f hwn
+        simp only [if_true, bufSet] at this
+        omega
       omega
     · cases hs
   | sendEnd f =>
     simp only [step] at hs
     split at hs
     · rename_i hc
-      obtain ⟨hf, hts, hes⟩ := hc
+      obtain ⟨hf, hts, htsU, hes⟩ := hc
       cases hs
       simp only [measure_eq]
       have hA := sum_change (k := s.k) (g := term s) (g' := term { s with endSent := upd s.endSent f true })
@@ -494,6 +672,8 @@ theorem step_measure {s s' : St} {a : Step} (hi : Inv s) (hs : step s a = some s
         simp only [term, upd_same, hes, b2n]; simp; omega
       have hB : sumN s.k (inflight { s with endSent := upd s.endSent f true }) = sumN s.k (inflight s) := rfl
       have hC : sumN s.c (open_ { s with endSent := upd s.endSent f true }) = sumN s.c (open_ s) := rfl
+      have hD : sumN s.k (termU { s with endSent := upd s.endSent f true }) = sumN s.k (termU s) := rfl
+      have hE : sumN s.k (inflightU { s with endSent := upd s.endSent f true }) = sumN s.k (inflightU s) := rfl
       omega
     · cases hs
   | accept j =>
@@ -505,6 +685,8 @@ theorem step_measure {s s' : St} {a : Step} (hi : Inv s) (hs : step s a = some s
       simp only [measure_eq]
       have hA : sumN s.k (term { s with accepted := upd s.accepted j (s.accepted j + 1) }) = sumN s.k (term s) := rfl
       have hB : sumN s.k (inflight { s with accepted := upd s.accepted j (s.accepted j + 1) }) = sumN s.k (inflight s) := rfl
+      have hD : sumN s.k (termU { s with accepted := upd s.accepted j (s.accepted j + 1) }) = sumN s.k (termU s) := rfl
+      have hE : sumN s.k (inflightU { s with accepted := upd s.accepted j (s.accepted j + 1) }) = sumN s.k (inflightU s) := rfl
       have hC := sum_change (k := s.c) (g := open_ s) (g' := open_ { s with accepted := upd s.accepted j (s.accepted j + 1) })
         hc.1 (by intro i hi'; simp only [open_]; rw [upd_other _ _ _ _ hi'])
       have hCf : open_ { s with accepted := upd s.accepted j (s.accepted j + 1) } j + 1 = open_ s j := by
@@ -535,6 +717,8 @@ theorem step_measure {s s' : St} {a : Step} (hi : Inv s) (hs : step s a = some s
           = sumN s.k (term s) := rfl
       have hC : sumN s.c (open_ { s with buf := upd s.buf w (upd (s.buf w) f (s.buf w f - 1)), remaining := upd s.remaining f (s.remaining f - 1) })
           = sumN s.c (open_ s) := rfl
+      have hD : sumN s.k (termU { s with buf := upd s.buf w (upd (s.buf w) f (s.buf w f - 1)), remaining := upd s.remaining f (s.remaining f - 1) }) = sumN s.k (termU s) := rfl
+      have hE : sumN s.k (inflightU { s with buf := upd s.buf w (upd (s.buf w) f (s.buf w f - 1)), remaining := upd s.remaining f (s.remaining f - 1) }) = sumN s.k (inflightU s) := rfl
       have hB := sum_change (k := s.k) (g := inflight s)
         (g' := inflight { s with buf := upd s.buf w (upd (s.buf w) f (s.buf w f - 1)), remaining := upd s.remaining f (s.remaining f - 1) })
         hf (by
@@ -565,6 +749,8 @@ theorem step_measure {s s' : St} {a : Step} (hi : Inv s) (hs : step s a = some s
         simp only [term, upd_same, her, b2n]; simp; omega
       have hB : sumN s.k (inflight { s with endRecv := upd s.endRecv f true }) = sumN s.k (inflight s) := rfl
       have hC : sumN s.c (open_ { s with endRecv := upd s.endRecv f true }) = sumN s.c (open_ s) := rfl
+      have hD : sumN s.k (termU { s with endRecv := upd s.endRecv f true }) = sumN s.k (termU s) := rfl
+      have hE : sumN s.k (inflightU { s with endRecv := upd s.endRecv f true }) = sumN s.k (inflightU s) := rfl
       omega
     · cases hs
   | recvDone f =>
@@ -580,6 +766,8 @@ theorem step_measure {s s' : St} {a : Step} (hi : Inv s) (hs : step s a = some s
         simp only [term, upd_same, hdr, b2n]; simp
       have hB : sumN s.k (inflight { s with doneRecv := upd s.doneRecv f true }) = sumN s.k (inflight s) := rfl
       have hC : sumN s.c (open_ { s with doneRecv := upd s.doneRecv f true }) = sumN s.c (open_ s) := rfl
+      have hD : sumN s.k (termU { s with doneRecv := upd s.doneRecv f true }) = sumN s.k (termU s) := rfl
+      have hE : sumN s.k (inflightU { s with doneRecv := upd s.doneRecv f true }) = sumN s.k (inflightU s) := rfl
       omega
     · cases hs
   | sendEndAll =>
@@ -591,6 +779,8 @@ theorem step_measure {s s' : St} {a : Step} (hi : Inv s) (hs : step s a = some s
       have hA : sumN s.k (term { s with endAllSent := true, visible := cnt s.n s.c }) = sumN s.k (term s) := rfl
       have hB : sumN s.k (inflight { s with endAllSent := true, visible := cnt s.n s.c }) = sumN s.k (inflight s) := rfl
       have hC : sumN s.c (open_ { s with endAllSent := true, visible := cnt s.n s.c }) = sumN s.c (open_ s) := rfl
+      have hD : sumN s.k (termU { s with endAllSent := true, visible := cnt s.n s.c }) = sumN s.k (termU s) := rfl
+      have hE : sumN s.k (inflightU { s with endAllSent := true, visible := cnt s.n s.c }) = sumN s.k (inflightU s) := rfl
       simp only [hc.2, b2n] at *
       simp
       omega
@@ -604,6 +794,8 @@ theorem step_measure {s s' : St} {a : Step} (hi : Inv s) (hs : step s a = some s
       have hA : sumN s.k (term { s with endAllRecv := true }) = sumN s.k (term s) := rfl
       have hB : sumN s.k (inflight { s with endAllRecv := true }) = sumN s.k (inflight s) := rfl
       have hC : sumN s.c (open_ { s with endAllRecv := true }) = sumN s.c (open_ s) := rfl
+      have hD : sumN s.k (termU { s with endAllRecv := true }) = sumN s.k (termU s) := rfl
+      have hE : sumN s.k (inflightU { s with endAllRecv := true }) = sumN s.k (inflightU s) := rfl
       simp only [hc.2, b2n] at *
       simp
       omega
